@@ -6,6 +6,7 @@ import (
 	"runtime"
 	"sort"
 	"strconv"
+	"strings"
 	"sync"
 	"testing/synctest"
 	"time"
@@ -29,7 +30,8 @@ type Sched struct {
 	lastTask *Task
 	rootGid  uint64
 	StepHook func(step int) // called by the scheduler goroutine before every step, all tasks parked or blocked
-	GCAtStep int // scheduler step before which a garbage collection is forced (-1: none)
+	held     map[uint64]int // per goroutine: locks of the library currently held (instrumented build)
+	GCAtStep int            // scheduler step before which a garbage collection is forced (-1: none)
 }
 
 type Task struct {
@@ -47,7 +49,7 @@ type Task struct {
 }
 
 func NewSched(r *Run) *Sched {
-	return &Sched{r: r, byGid: map[uint64]*Task{}, abort: make(chan struct{}), SwitchP: [2]int{1, 1}, rootGid: curGid(), GCAtStep: -1}
+	return &Sched{r: r, byGid: map[uint64]*Task{}, abort: make(chan struct{}), SwitchP: [2]int{1, 1}, rootGid: curGid(), GCAtStep: -1, held: map[uint64]int{}}
 }
 
 func curGid() uint64 {
@@ -102,7 +104,35 @@ func (s *Sched) Yield(site string, key ...int) {
 		s.mu.Unlock()
 		return
 	}
+	// yield points inserted by cmd/instrument around the library's own locks: a task is never switched away from
+	// while it holds a lock (the next task to want that lock would block for real, outside the scheduler's view)
+	switch site {
+	case "sync.enter":
+		s.held[gid]++
+		s.mu.Unlock()
+		return
+	case "sync.exit":
+		if s.held[gid] > 0 {
+			s.held[gid]--
+		}
+		if s.held[gid] == 0 {
+			delete(s.held, gid)
+		}
+		s.mu.Unlock()
+		return
+	}
+	if s.held[gid] > 0 {
+		s.mu.Unlock()
+		return
+	}
 	t := s.byGid[gid]
+	if t == nil && (strings.HasPrefix(site, "sync.") || strings.HasPrefix(site, "chan.") || strings.HasPrefix(site, "go.")) {
+		// an inserted yield point reached by a goroutine the scheduler has not met: its key (a line number) does not
+		// tell siblings apart, so adopting it here would make the order of adoption depend on the Go runtime. Such a
+		// goroutine is adopted at the first committed hook site it reaches (whose key identifies it) or runs free.
+		s.mu.Unlock()
+		return
+	}
 	if t == nil {
 		// a goroutine the library started: adopt it
 		t = &Task{Name: "adopted", resume: make(chan struct{}), adopted: true, started: true, gid: gid}
